@@ -153,7 +153,10 @@ package aggsender
 //@ func (a *AggSender) sendCertificates (a, ctx, returnAfterNIterations)
 //@   props C02
 //@   requires a != nil && a.storage != nil && a.log != nil && a.flow != nil && a.aggLayerClient != nil && a.epochNotifier != nil && a.rateLimiter != nil && a.certStatusChecker != nil && a.status != nil
-//@   modifies heap
+//@   modifies heap, ctxEnded
+// the sender's loop is left only through the Done case of its own context, or at the iteration limit its tests pass in
+// (0 in production): no error of a submission or of a status check ends it
+//@   ensures[stops-only-when-its-context-ended] ctxEnded || returnAfterNIterations > 0
 //@   loop 0 invariant a.storage != nil && a.log != nil && a.flow != nil && a.aggLayerClient != nil && a.epochNotifier != nil && a.rateLimiter != nil && a.certStatusChecker != nil && a.status != nil
 //@   assert call:sendCertificate:0 !pendingAtLastCheck && newInErrorAtLastCheck && a.cfg.RetryCertAfterInError
 //@   assert call:sendCertificate !pendingAtLastCheck
